@@ -67,6 +67,8 @@ def profile():
             'QXmppRosterIq::items/0': ('fn', 'QXmppRosterIq_items'),
             'ctor:QXmppIq(int)': ('fn', 'QXmppIq_ctor'),
             'QXmppIq::setId/1': ('fn', 'QXmppIq_setId'),
+            'QXmppIq::setTo/1': ('fn', 'QXmppIq_setTo'),
+            'QXmppRosterIq::from/0': ('fn', 'QXmppRosterIq_from'),
             'qitem::bareJid/0': ('fn', 'qitem_bareJid'),
             'qitem::subscriptionType/0': ('fn', 'qitem_subscriptionType'),
             'rangefor:qitemlist': cxx2c.rangefor_indexed('qitemlist_size({r})', 'qitemlist_at({r}, {i})'),
